@@ -51,7 +51,7 @@ func TestVerifC22(t *testing.T) {
 				r.Violation("C22/utc-offset/week-start", fmt.Sprintf("calcUTCOffset(%s, weekStart %d) = %d, reference %d (mod one week)", z.Name, ws, got, want), nil)
 			}
 			fixed := time.FixedZone("epoch", int(z.EpochOffset))
-			for k := 0; k < r.N(40, 4000); k++ {
+			for k := 0; k < r.N(40, 400); k++ {
 				tt := rnd.Int64N(2_000_000_000)
 				if k%5 == 0 {
 					tt = -rnd.Int64N(100_000_000) // before the epoch: floor division matters
@@ -94,7 +94,7 @@ func TestVerifC22(t *testing.T) {
 			r.Case(true, fmt.Sprintf("shift %s %d %d %d", z.Name, y, mo, months))
 		}
 	}
-	n := r.N(20000, 1500000)
+	n := r.N(20000, 1000000)
 	workers := 8
 	r.Parallel(workers, "cases", func(w *verifkit.Worker) {
 		sink := &c22Sink{r: r, w: w}
